@@ -78,6 +78,13 @@ def run(ctx):
             'increase number of radical (x1) increase number of radical (x2)}']
     for seeds, rules in ((['CCCO'], [ASYM[0]]), (['CCOC'], [ASYM[1]]), (['CC(C)CO'], [ASYM[0]]), (['CCC'], [ASYM[0]]), (['CCCC=O'], [ASYM[0]])):
         jobs.append({'seeds': seeds, 'rules': rules, 'timeout': 300})
+    # a scission rule written hydrogen-first (every reaction then leads with the same first product), and rule sets in which one rule
+    # creates the pattern another one needs (a rule that finds nothing in a parent may still apply to its descendants)
+    HF = ['[H:1][C:2]>>[H:1].[C:2]', '[H:1][O:2]>>[H:1].[O:2]']
+    BO = ['[C:1][C:2]>>[C:1]=[C:2]', '[C:1]=[C:2]>>[C:1]#[C:2]']
+    for seeds, rules in ((['CCC'], [HF[0]]), (['CCO'], [HF[0], HF[1]]), (['CC(C)C'], [HF[0]]), (['CC'], [SMARTS[0], BO[0], BO[1]]),
+                         (['CC'], [BO[1], BO[0], SMARTS[0]]), (['CCC'], [SMARTS[0], BO[0], BO[1]]), (['CC'], [RING[0], BO[0], BO[1]])):
+        jobs.append({'seeds': seeds, 'rules': rules, 'timeout': 300})
     # a network generated after another one in the same process, the same species written with another atom order
     for warm, seeds, rules in ((['CCO'], ['OCC'], [RING[1]]), (['CO'], ['OC'], [RING[0]]), (['CC=C'], ['C=CC'], [RING[0], RING[1]]),
                                (['CCO'], ['C(O)C'], [RING[3], RING[2]]), (['OCC'], ['CCO'], [SMARTS[1], SMARTS[3]]), (['CCC'], ['CC'], [RING[0]])):
